@@ -41,6 +41,29 @@ class UserUpdateSegmentation(ActionGroup):
         """
         super().__init__(tracks, actions=[])
         self.tracks: SolutionTracks  # Narrow type from base class
+        try:
+            node_to_select = self._apply_updates(
+                new_value, updated_pixels, current_track_id, force
+            )
+        except Exception:
+            # a refused update must leave the tracks unchanged: take back the
+            # sub-actions that were already applied
+            for action in reversed(self.actions):
+                action.inverse()
+            raise
+
+        self.tracks.action_history.add_new_action(self)
+        self.tracks.refresh.emit(node_to_select)
+
+    def _apply_updates(
+        self,
+        new_value: int,
+        updated_pixels: list[tuple[tuple[np.ndarray, ...], int]],
+        current_track_id: int,
+        force: bool,
+    ) -> int | None:
+        """Apply the sub-actions of the update, and return the node to select."""
+        tracks = self.tracks
         node_to_select = None
         if self.tracks.segmentation is None:
             raise ValueError("Cannot update non-existing segmentation.")
@@ -91,6 +114,4 @@ class UserUpdateSegmentation(ActionGroup):
                     )
                 )
                 node_to_select = new_value
-
-        self.tracks.action_history.add_new_action(self)
-        self.tracks.refresh.emit(node_to_select)
+        return node_to_select
